@@ -29,10 +29,19 @@ SCENARIOS = ['main-edit-with-dir-override', 'dir-edit', 'permissive-default-rule
              'dir-edit-no-overwrite', 'deprecated-main-emptied', 'deprecated-dir-override-edit', 'two-dirs-later-edit']
 
 
+def _rm_root(root):
+    if os.path.islink(root):
+        os.remove(root)
+    shutil.rmtree(root, ignore_errors=True)
+    shutil.rmtree(root + '.real', ignore_errors=True)
+
+
 def build(scn, root):
     """-> (fs, enforcer loaded with the OLD policy, change function, probes)"""
-    shutil.rmtree(root, ignore_errors=True)
-    os.makedirs(root)
+    # the configuration directory is reached through a symbolic link (release trees are commonly deployed that way)
+    _rm_root(root)
+    os.makedirs(root + '.real')
+    os.symlink(root + '.real', root)
     fs = FsSim(root)
     fs.mkdir('policy.d')
     defaults = [('reg:a', 'role:dflt_a', None, None), ('reg:b', 'role:dflt_b', None, None)]
@@ -183,7 +192,7 @@ def decider_switch(root, k, pkg):
     """the DECIDING thread is paused before its k-th traced line (inside its enforce call, after its own load step
     has found nothing new), a complete reload of edited files happens, the decider resumes.
     -> (decision, phase, total lines); phase = whether rule evaluation had begun when it was paused"""
-    shutil.rmtree(root, ignore_errors=True)
+    _rm_root(root)
     os.makedirs(root)
     fs = FsSim(root)
     fs.mkdir('policy.d')
@@ -323,7 +332,7 @@ def run(run, binfo):
                 'load_rules) and the reloader resumes; decisions compared with the settled old and new policies; a mixed decision '
                 'is keyed by (scenario, last shared-state write site executed by the reloader); and the deciding thread preempted at every line of its own enforce call while a whole reload goes by (keyed by whether the definition of the enforced rule had already been fetched). non-trivial = preemption points'
                 % (', '.join(SCENARIOS), '' if tier == 'thorough' else ' third'))
-    shutil.rmtree(root, ignore_errors=True)
+    _rm_root(root)
 
 
 def replay(run, rep):
@@ -333,11 +342,11 @@ def replay(run, rep):
     root = fresh_root('c20replay')
     if rep.get('suite') == 'spec-c20-decider':
         r, phase, _ = decider_switch(root, inp['k'], pkg)
-        shutil.rmtree(root, ignore_errors=True)
+        _rm_root(root)
         print('phase', phase, 'decision', r)
         return r is False
     old, new = settled(inp['scenario'], root)
     res, phase, _, _ = one_switch(inp['scenario'], root, inp['k'], pkg, site_lines())
-    shutil.rmtree(root, ignore_errors=True)
+    _rm_root(root)
     print('phase', phase, 'mixed' if (res is not None and res not in (old, new)) else 'old-or-new')
     return res is None or res in (old, new)
